@@ -39,25 +39,23 @@ PROPS = {
         "level_note": "Trusted: Lean kernel; propext, Quot.sound, Classical.choice; harness. Partial: JSON / merged / dynblock bodies are covered by the oracle, not by a theorem.",
     },
     "C05": {
-        "disabled": True,
         "lean": ["Props.C05"],
         "gen": [],
         "hx": ["C05", "C01"],
         "trusted": [EVAL_TIE, "refinements of unknown values are not modelled (the property's refinement clause is covered by the direct oracle only)"],
-        "assumptions": ["function tables satisfying SoundFuncs", "strict configuration: no sub-evaluation failed"],
+        "assumptions": ["function tables satisfying SoundFuncsS", "strict configuration: no sub-evaluation failed", "okExpr e / knownOk e, wfEnv of the concrete scope (see Props/C05.lean)"],
         "technique": "Lean 4 proof (abstraction soundness of the evaluator model by induction over expressions) + differential correspondence + abstract-vs-concrete oracle on the real evaluator",
-        "level_text": "Kernel-checked on the evaluator model: if the abstract and a concrete evaluation are both error-free, the concrete result is consistent with the abstract one (known parts equal, unknown parts typed); an error-free evaluation in a known scope yields a wholly known value. The direct oracle runs abstract vs concrete instantiations on the real code including refinements.",
+        "level_text": "Kernel-checked on the evaluator model (strict configuration): abs_sound_partial — if the abstract evaluation (some variables unknown) and a concrete instantiation with well-typed values are both error-free, the concrete result is consistent with the abstract one (known parts equal, unknown parts typed), for expressions with okExpr (every conditional's two results have the same static primitive type, splat bodies statically typed, literals well typed) and function tables satisfying SoundFuncsS; known_in_known_out_partial — an error-free evaluation in a scope without unknowns yields a wholly known value, for everything the parser can produce (knownOk); eval_wf and staticTy_sound as supporting theorems. The full statements are refuted by nine kernel-checked witnesses (cex1..cex9), of which `(false ? x : 1) == \"1\"` with x unknown (abstract false, concrete true) and the conditional over an unselected dynamic branch are behaviours of the Go code (recorded finding C05-cond-unselected-branch). The direct oracle runs abstract vs concrete instantiations on the real code including refinements.",
         "level_note": "Trusted: Lean kernel; standard axioms; harness. Partial: refinements, sets and the other unsupported cases are outside the model.",
     },
     "C06": {
-        "disabled": True,
         "lean": ["Props.C06"],
         "gen": [],
         "hx": ["C06", "C01"],
         "trusted": [EVAL_TIE, "hcldec / dynblock mark propagation is covered by the direct oracle only"],
         "assumptions": ["function tables satisfying LawfulFuncs", "strict configuration (keepKeyMarks, keepDropped)"],
         "technique": "Lean 4 proof (noninterference of the evaluator model w.r.t. a mark) + differential correspondence + two-run oracle on the real evaluator and decoder",
-        "level_text": "Kernel-checked on the evaluator model: two scopes that differ only inside marked values give results that are equal except inside parts marked in both (under the stated side conditions); values that differ therefore carry the mark in both runs. The statement for the Go configuration is refuted by kernel-checked witnesses replayed on the code (recorded findings). The direct oracle runs the two-run check on the real evaluator, hcldec and dynblock.",
+        "level_text": "Kernel-checked on the evaluator model (strict configuration): two scopes that differ only inside marked values give error-free results that are equal except inside parts marked in both (noninterference_partial), hence results that differ carry the mark in both runs (rel_differ_marked, marks_propagate); outright for expressions built from literals, variables, attribute access, binary operators, tuples and templates (noninterference_plain); under the two-run side condition Stable for the rest, which excludes exactly the two channels that kernel-checked witnesses (12 theorems K_*/T_*) show to be real in the model and the Go code: the known-ness of a marked value inspected by unary operators, index/object keys, for collections, template joins and call expansion, and types of marked parts turned into content by conditional unification and splat. The statement for the Go configuration (object index by a marked key drops the mark) is refuted by a kernel-checked witness replayed on the code (recorded finding). strict_agrees: an error-free strict run equals the Go-configuration run with kept key marks. The direct oracle runs the two-run check on the real evaluator, hcldec and dynblock.",
         "level_note": "Trusted: Lean kernel; standard axioms; harness. Partial: see the side condition in Props/C06.lean; decoding is oracle-only.",
     },
     "C07": {
